@@ -19,6 +19,7 @@ type Scenario struct {
 	RawInput  any // if set, this (possibly invalid, possibly non-map) document is passed to Execute instead of Input
 	NormInput any // if set, the schema-normalised input the reference and the trace oracles work with
 	ParseOnly bool // the execution under exploration is Prepare (with Script applied to the schema probes), not Execute
+	MayReject bool // preparation may refuse the program (then there is nothing to run and nothing to check)
 	Ref    *RefRun
 	pw     workflow.ExecutableWorkflow
 	prepErr error
@@ -237,7 +238,10 @@ func progForeachEnabledLit(name string, lit any) *Program {
 	p := progForeach(subProg(), 2)
 	p.Name = name
 	p.Steps[0].Enabled = Lit{lit}
-	p.Outputs = append(p.Outputs, Output{"off", O("m", E("$.steps.loop.disabled.output.message"))})
+	// a sibling that is alive while the loop step ends (disabled or not)
+	p.Steps = append(p.Steps, pstep("x", O("v", E("$.input.n"))))
+	p.Outputs[0].Val = O("d", E("$.steps.loop.outputs.success.data"), "x", E(sv("x")))
+	p.Outputs = append(p.Outputs, Output{"off", O("m", E("$.steps.loop.disabled.output.message"), "x", E(sv("x")))})
 	return p
 }
 
